@@ -23,7 +23,7 @@ open ALV ALV.J ALV.C04
                         ["call",s,f,x,m|null,zero] | ["take",s,k]]
     payload: {"model":[obs…], "spec":[obs…]}, one observation per op:
       {"k":"stored"} | {"k":"ok"} | {"k":"err","err":kind} | {"k":"unbound"} |
-      {"k":"outs","ys":[…],"ended":bool};
+      {"k":"outs","ys":[…],"ended":bool}  (spec: + "seen": the input items delivered so far);
     the model's observation of a successful call also carries "ir","b","a","mem" (the source it
     generates at that call, the dense coefficients and the private memory list)
 -/
@@ -125,6 +125,23 @@ def histModelJson : HState Rat (Terms Rat × Terms Rat) (Gen Rat) → List (HOp 
     let r := hstep modelImpl st op
     obsJson (callExtra st op) r.1 :: histModelJson r.2 ops
 
+/-- what the specification's stream has been delivered so far (shown after a request, for the
+rounding-error bound of the float regime) -/
+def seenExtra (st : HState Rat (SFilt Rat) (SStrm Rat)) : HOp Rat → List (String × Json)
+  | .take s _ =>
+    match st.strms s with
+    | some t => [("seen", rats t.gen.seen)]
+    | none => []
+  | _ => []
+
+def histSpecJson : HState Rat (SFilt Rat) (SStrm Rat) → List (HOp Rat) → List Json
+  | _, [] => []
+  | st, op :: ops =>
+    let r := hstep specImpl st op
+    (match obsJson [] r.1 with
+      | Json.obj kv => Json.obj (kv ++ seenExtra r.2 op)
+      | j => j) :: histSpecJson r.2 ops
+
 def handle (entry : String) (j : Json) : Except String Json := do
   match entry with
   | "call" =>
@@ -158,7 +175,7 @@ def handle (entry : String) (j : Json) : Except String Json := do
   | "hist" =>
     let ops ← getList getOp (← field j "ops")
     pure <| Json.mkObj [("model", Json.arr (histModelJson HState.empty ops)),
-                        ("spec", arr (obsJson []) (histSpec ops))]
+                        ("spec", Json.arr (histSpecJson HState.empty ops))]
   | "compile" =>
     let b ← getList getRat (← field j "b")
     let a ← getList getRat (← field j "a")
